@@ -126,6 +126,82 @@ def gen_case(rng, refs, n, wild, tier):
     return {'ds': rng.random() < 0.4, 'frags': frags, 'orders': uniq, 'kinds': kinds}
 
 
+def gen_history(rng, refs, wild):
+    """operations on one Molecule object: growth by add_fragment / _add_fragment / add_molecule with get_consensus
+    queries (dove_safe on/off, with_probs_and_obs on/off, repeated) in between"""
+    n = rng.choice([2, 2, 3, 3, 4, 5, 6, 8, 12])
+    locus, span = rng.randint(5, 150), rng.choice([4, 6, 10, 16])
+    kinds, frags = [], []
+    same_strand = rng.random() < 0.6          # makes add_fragment accept most fragments
+    for _ in range(n):
+        for _try in range(20):
+            k, f = gen_fragment(rng, refs, locus, span, wild)
+            first = next(s for s in f if s is not None)
+            if not same_strand or (k != 'same_strand_pair' and first['rev'] == (f[0] is None)):
+                break
+        kinds.append(k); frags.append(f)
+    idx = list(range(n))
+    if rng.random() < 0.3:
+        idx += [rng.randrange(n) for _ in range(rng.randint(1, 3))]   # the same fragment object added again
+    rng.shuffle(idx)
+    ops, i = [], 0
+
+    def query():
+        ds, probs = rng.random() < 0.3, rng.random() < 0.25
+        ops.append(['get', ds, probs])
+        if rng.random() < 0.3:
+            ops.append(['get', ds if rng.random() < 0.7 else not ds, False])
+    while i < len(idx):
+        r = rng.random()
+        if r < 0.4:
+            ops.append(['add', idx[i]]); i += 1
+        elif r < 0.55:
+            ops.append(['raw', idx[i]]); i += 1
+        else:
+            k = rng.randint(1, 4)
+            ops.append(['mol', idx[i:i + k]]); i += k
+        if rng.random() < 0.6:
+            query()
+    ops.append(['get', False, False]); ops.append(['get', True, False])
+    return {'frags': frags, 'ops': ops, 'kinds': kinds}
+
+
+def history_model_ops(h, r):
+    """the operation list as the model sees it (accept verdicts of add_fragment are inputs, see Model/C13.v)"""
+    out = []
+    for op, res in zip(h['ops'], r['ops']):
+        if op[0] == 'add':
+            out.append([0, 1 if res is True else 0, r['minput'][op[1]]])
+        elif op[0] == 'raw':
+            out.append([1, r['minput'][op[1]]])
+        elif op[0] == 'mol':
+            out.append([2, [r['minput'][i] for i in (res if isinstance(res, list) else [])]])
+        else:
+            out.append([3, int(op[1]), int(op[2])])
+    return out
+
+
+def history_held(h, r, upto):
+    """indices of the fragments the molecule holds before operation number `upto`"""
+    held = []
+    for op, res in list(zip(h['ops'], r['ops']))[:upto]:
+        if op[0] == 'add' and res is True:
+            held.append(op[1])
+        elif op[0] == 'raw':
+            held.append(op[1])
+        elif op[0] == 'mol' and isinstance(res, list):
+            held += res
+    return held
+
+
+def history_answer(op, res):
+    """canonical implementation answer of a get operation, in the model's encoding"""
+    if isinstance(res, dict) and 'error' in res:
+        c = [ERR.get(res['error'].split(':')[0], 9), []]
+        return [c, c] if op[2] else [c]
+    return [[0, res['cons']], [0, res['table']]] if op[2] else [[0, res['cons']]]
+
+
 def pick_cases(rng, tier):
     opts = [None] + [[ord(b), q] for b in 'ACN' for q in (0, 1, 2)]
     cases = [list(c) for n in range(0, 3 if tier == 'quick' else 4) for c in itertools.product(opts, repeat=n)]
@@ -256,7 +332,9 @@ class Prop(fw.PropBase):
         if os.path.isdir(d):
             for f in sorted(os.listdir(d)):
                 if f.endswith('.json'):
-                    out.append(json.load(open(os.path.join(d, f)))['case'])
+                    j = json.load(open(os.path.join(d, f)))
+                    if 'case' in j:
+                        out.append(j['case'])
         return out
 
     def cases(self):
@@ -291,15 +369,53 @@ class Prop(fw.PropBase):
         return {'contig': 0, 'start': 30, 'seq': b + 'G', 'quals': [q, 30], 'rev': rev, 'cigar': [[0, 2]], 'md': True}
 
     # ---------------------------------------------------------------- K
-    def run_impl_cases(self, refs, cases, picks=()):
+    def run_impl_cases(self, refs, cases, picks=(), histories=()):
         return fw.run_impl('impl_c13.py', {'refs': refs, 'cases': [{k: c[k] for k in ('ds', 'frags', 'orders')} for c in cases],
-                                           'picks': list(picks)})
+                                           'picks': list(picks),
+                                           'histories': [{k: h[k] for k in ('frags', 'ops')} for h in histories]})
+
+    def histories(self):
+        d = os.path.join(fw.VERIF, 'corpus', 'C13')
+        out = []
+        if os.path.isdir(d):
+            for f in sorted(os.listdir(d)):
+                if f.endswith('.json'):
+                    j = json.load(open(os.path.join(d, f)))
+                    if 'history' in j:
+                        out.append(j['history'])
+        refs = self.refs()
+        hr = __import__('random').Random(self.seed * 7919 + 13)
+        for i in range(350 if self.tier == 'quick' else 5000):
+            out.append(gen_history(hr, refs, wild=(i % 5 == 0)))
+        return out
+
+    def history_violations(self, h, r):
+        """python transcription of C13_history_query + C13_majority on the implementation's answers: every query must
+        answer the strict majority over ALL fragments held at that moment"""
+        out = []
+        for n, (op, res) in enumerate(zip(h['ops'], r['ops'])):
+            if op[0] != 'get':
+                continue
+            held = [r['minput'][i] for i in history_held(h, r, n)]
+            exp = spec_consensus(bool(op[1]), held, head=self.head)
+            if exp is None:
+                continue
+            got = history_answer(op, res)
+            if got[0] != [0, exp]:
+                out.append(('history-stale-or-wrong-consensus', n, got[0], exp))
+            elif op[2]:
+                votes, _ = spec_votes(bool(op[1]), held, head=self.head)
+                tab = sorted([k[0], k[1]] + [v.get(ord(b), 0) for b in 'ACGT'] + [0] for k, v in votes.items())
+                if got[1] != [0, tab]:
+                    out.append(('history-vote-table', n, got[1], tab))
+        return out
 
     def correspondence(self):
         refs, cases = self.cases()
         picks = pick_cases(self.rng, self.tier)
-        res = self.run_impl_cases(refs, cases, picks)
-        self.refs_, self.cases_, self.res_, self.picks_ = refs, cases, res, picks
+        hists = self.histories()
+        res = self.run_impl_cases(refs, cases, picks, hists)
+        self.refs_, self.cases_, self.res_, self.picks_, self.hists_ = refs, cases, res, picks, hists
         rc = res['cases']
         broken_build = [(c, r) for c, r in zip(cases, rc) if 'error' in r]
         if broken_build:
@@ -396,11 +512,50 @@ class Prop(fw.PropBase):
             got = code_of(rc[ci]['fragcons'][fi])
             if got != m:
                 dis.append({'what': 'Fragment.get_consensus', 'case': ci, 'fragment': fi, 'model': m, 'impl': got})
+        # histories through one Molecule object
+        rh = res['histories']
+        bad_h = [r for r in rh if 'error' in r]
+        if bad_h:
+            raise fw.Broken('correspondence', 'could not run a history: %r' % (bad_h[0],))
+        mh = fw.run_model('C13', 8 if self.head else 7, [history_model_ops(h, r) for h, r in zip(hists, rh)])
+        n_get = n_get_after_growth = n_add = n_acc = n_mol = n_raw = n_repeat = 0
+        for hi, (h, r, m) in enumerate(zip(hists, rh, mh)):
+            gets = [(n, op, x) for n, (op, x) in enumerate(zip(h['ops'], r['ops'])) if op[0] == 'get']
+            seen_get = False
+            for n, (op, x) in enumerate(zip(h['ops'], r['ops'])):
+                if op[0] == 'add':
+                    n_add += 1; n_acc += x is True
+                elif op[0] == 'mol':
+                    n_mol += 1
+                elif op[0] == 'raw':
+                    n_raw += 1
+                else:
+                    n_get += 1
+                    n_get_after_growth += seen_get and h['ops'][n - 1][0] != 'get'
+                    n_repeat += n > 0 and h['ops'][n - 1][0] == 'get'
+                    seen_get = True
+            if len(m) != len(gets):
+                dis.append({'what': 'history: number of answers', 'history': hi, 'model': len(m), 'impl': len(gets)})
+                continue
+            for (n, op, x), ma in zip(gets, m):
+                got = history_answer(op, x)
+                if got != [sort_model(a) for a in ma]:
+                    dis.append({'what': 'history: get_consensus answer number %d (operation %d)' % (gets.index((n, op, x)), n),
+                                'history': hi, 'ops': h['ops'][:n + 1], 'model': [sort_model(a) for a in ma], 'impl': got})
+                    break
+            for kind, n, got, exp in self.history_violations(h, r):
+                dis.append({'what': 'python brute-force vote over the held fragments disagrees (%s)' % kind, 'history': hi,
+                            'ops': h['ops'][:n + 1], 'impl': got, 'expected': exp})
+                break
+        self.cov['histories'] = {'histories': len(hists), 'queries': n_get, 'queries_after_growth_following_an_earlier_query': n_get_after_growth,
+                                 'repeated_queries': n_repeat, 'add_fragment': n_add, 'add_fragment_accepted': n_acc,
+                                 '_add_fragment': n_raw, 'add_molecule': n_mol}
+        self.cov['evaluations'] += n_get
         mp = fw.run_model('C13', 5, [[[] if c is None else c for c in p] for p in picks])
         for p, m, g in zip(picks, mp, res['picks']):
             if m != g:
                 dis.append({'what': 'pick_best_base_call', 'input': p, 'model': m, 'impl': g})
-        self.cov['traces_validated_against_impl'] = len(jobs) + len(spec_jobs) + len(ident) + len(fjobs) + len(picks)
+        self.cov['traces_validated_against_impl'] = len(jobs) + len(spec_jobs) + len(ident) + len(fjobs) + len(picks) + n_get
         self.cov['precondition_hit_rate'] = round(sum(pre) / max(1, len(pre)), 4)
         self.cov['specb_evaluated_on_impl_outputs'] = len(spec_jobs)
         self.cov['python_majority_oracle_evaluated_on_impl_outputs'] = n_py
@@ -463,7 +618,8 @@ class Prop(fw.PropBase):
         if res is None:
             self.refs_, self.cases_ = self.cases()
             self.picks_ = pick_cases(self.rng, self.tier)
-            res = self.res_ = self.run_impl_cases(self.refs_, self.cases_, self.picks_)
+            self.hists_ = self.histories()
+            res = self.res_ = self.run_impl_cases(self.refs_, self.cases_, self.picks_, self.hists_)
         best = {}
         for c, r in zip(self.cases_, res['cases']):
             if 'error' in r:
@@ -482,6 +638,18 @@ class Prop(fw.PropBase):
                         % (c2['ds'], len(c2['frags']), o2, g, exp),
                 'input': {'dove_safe': c2['ds'], 'fragments': c2['frags'], 'order': o2, 'refs_seed': 1234},
                 'impl': g, 'expected': exp})
+        # histories: stale / route dependent answers
+        hbest = None
+        for h, r in zip(self.hists_, res.get('histories', [])):
+            if 'error' in r:
+                continue
+            for kind, n, got, exp in self.history_violations(h, r):
+                size = len(json.dumps(h['ops'][:n + 1])) + sum(len(json.dumps(f)) for f in h['frags'])
+                if hbest is None or size < hbest[0]:
+                    hbest = (size, kind, h, n)
+                break
+        if hbest:
+            self.witnesses.append(self.shrink_history(*hbest[1:]))
         # pick_best_base_call against its specification
         for p, g in zip(self.picks_, res['picks']):
             calls = [c for c in p if c is not None]
@@ -524,6 +692,35 @@ class Prop(fw.PropBase):
                 break
             cur = nxt
         return cur, cur['orders'][-1], g, exp
+
+    def shrink_history(self, kind, h, n):
+        """cut the history at the failing query, then greedily drop earlier operations while that query still fails"""
+        cur = {'frags': h['frags'], 'ops': h['ops'][:n + 1]}
+        got = exp = None
+        for _ in range(40):
+            cands = [{'frags': cur['frags'], 'ops': cur['ops'][:i] + cur['ops'][i + 1:]} for i in range(len(cur['ops']) - 1)]
+            rs = self.run_impl_cases(self.refs_, [], (), [cur] + cands)['histories']
+            v0 = [v for v in self.history_violations(cur, rs[0]) if v[1] == len(cur['ops']) - 1]
+            if v0:
+                got, exp = v0[0][2], v0[0][3]
+            nxt = None
+            for cand, r in zip(cands, rs[1:]):
+                if 'error' not in r and any(v[1] == len(cand['ops']) - 1 and v[0] == kind for v in self.history_violations(cand, r)):
+                    nxt = cand
+                    break
+            if nxt is None:
+                break
+            cur = nxt
+        used = sorted(set(i for op in cur['ops'] if op[0] != 'get' for i in ([op[1]] if op[0] != 'mol' else op[1])))
+        ren = {i: k for k, i in enumerate(used)}
+        ops = [[op[0], ren[op[1]]] if op[0] in ('add', 'raw') else (['mol', [ren[i] for i in op[1]]] if op[0] == 'mol' else op)
+               for op in cur['ops']]
+        return {'key': 'history:' + kind,
+                'what': 'operations %r on one Molecule object (add = add_fragment, raw = _add_fragment, mol = add_molecule of a '
+                        'molecule built from those fragments, get = get_consensus(dove_safe, with_probs_and_obs)): the last query '
+                        'returns %r; the strict majority over the fragments held at that moment is %r' % (ops, got, exp),
+                'input': {'operations': ops, 'fragments': [cur['frags'][i] for i in used], 'refs_seed': 1234},
+                'impl': got, 'expected': exp}
 
     # ---------------------------------------------------------------- known finding D16 (only if recorded instead of repaired)
     def replay_known(self, finding):
